@@ -157,7 +157,7 @@ impl ErrInto<DetachError> for DetachError { open spec fn conv(self) -> DetachErr
 //@@ nowhere
 //@@ attr #[verifier::exec_allows_no_decreases_clause]
 //@@ param link_inner : &mut EndS
-//@@ subst `match link_inner .reader_mut() .recv() .ok_or_else(|| detach_error_from_stop_reason(link_inner))?` => `match (match link_inner.reader_mut().recv() { Some(f) => f, None => return Err(detach_error_from_stop_reason(link_inner)) })` rule=R19
+//@@ subst `match link_inner .reader_mut() .recv() .ok_or_else(|| detach_error_from_stop_reason(link_inner))?` => `match (match link_inner.reader_mut().recv() { Some(f) => f, None => return Err(detach_error_from_stop_reason(link_inner)) })` rule=R19 unless `ok_or_else`
 //@@ spec
     ensures
         final(link_inner).sent == old(link_inner).sent, final(link_inner).link == old(link_inner).link, final(link_inner).failures == old(link_inner).failures, final(link_inner).has_handle == old(link_inner).has_handle,   // [C13.link.nothing-sent-while-waiting] waiting for the peer's detach queues nothing
